@@ -146,10 +146,18 @@ func _yieldUnmarshalMachinePtrForAtlasEntry(row *unmarshalSlabRow, entry *atlas.
 		// The entry.UnmarshalTransformTargetType is used to do a recursive lookup.
 		// We can't just call the func here because we're still working off typeinfo
 		// and don't have a real value to transform until later.
+		// Pick delegate without growing stack.  (This currently means recursive transform won't fly:
+		// the delegate is configured in this same row, so a received type that needs this row's transform
+		// machine for itself would end up delegating to itself.  Refuse that.)
+		delegate := _yieldUnmarshalMachinePtr(row, atl, entry.UnmarshalTransformTargetType)
+		if delegate == UnmarshalMachine(&row.unmarshalMachineTransform) {
+			mach := &row.errThunkUnmarshalMachine
+			mach.err = fmt.Errorf("unsupported: the transform for type %v receives %v, which needs a transform itself (chained transforms are not supported)", entry.Type, entry.UnmarshalTransformTargetType)
+			return mach
+		}
 		row.unmarshalMachineTransform.trFunc = entry.UnmarshalTransformFunc
 		row.unmarshalMachineTransform.recv_rt = entry.UnmarshalTransformTargetType
-		// Pick delegate without growing stack.  (This currently means recursive transform won't fly.)
-		row.unmarshalMachineTransform.delegate = _yieldUnmarshalMachinePtr(row, atl, entry.UnmarshalTransformTargetType)
+		row.unmarshalMachineTransform.delegate = delegate
 		return &row.unmarshalMachineTransform
 	case entry.StructMap != nil:
 		row.unmarshalMachineStructAtlas.cfg = entry
